@@ -217,6 +217,31 @@ def run(case, ctx):
     out = loaded
     if not ok or canon(out3) != c_out:
         ctx.violate(f"C12/not-stable-after-use/{ktail}", f"to_part_specs() after the path was used gives {out3!r}, first {out!r}")
+    # the other serialised form of a path, `to_spec()` -> JSON -> `from_spec` / `from_json_like` (what conditions use for their
+    # data-path arguments)
+    oks, spec1 = call(obj.to_spec)
+    if oks:
+        try:
+            sl = json.loads(json.dumps(spec1))
+        except (TypeError, ValueError) as e:
+            ctx.violate(f"C12/not-json/{ktail}", f"to_spec() = {spec1!r} is not JSON: {e}")
+            sl = None
+        if sl is not None:
+            with warnings.catch_warnings():
+                warnings.simplefilter("ignore")
+                okr, r2 = call(DP.DataPath.from_json_like, sl)
+            ctx.count("route:to_spec->from_json_like")
+            if not okr:
+                ctx.violate(f"C12/rebuild-raise:{r2.type}/{ktail}", f"from_json_like({sl!r}) raised {r2!r}; original {obj!r}")
+            else:
+                for doc in case["probes"]:
+                    a, b = norm_sel(obj, doc), norm_sel(r2, doc)
+                    if a != b:
+                        ctx.violate(f"C12/silent/{ktail}", f"to_spec() {spec1!r}; on probe {doc!r}\n original selects {a}\n rebuilt selects {b}")
+                        break
+                okq, eq = call(lambda: (r2 == rebuilt, rebuilt == r2))
+                if not okq or eq != (True, True):
+                    ctx.violate(f"C12/routes-disagree/{ktail}", f"from_json_like(to_spec()) {r2!r} != from_part_specs(*to_part_specs()) {rebuilt!r}")
     if via == "spec":
         okq, eq = call(lambda: (rebuilt == obj, obj == rebuilt))
         if not okq or eq != (True, True):
